@@ -37,11 +37,13 @@ class MPipe:
 
 
 class MContainer:
-    def __init__(self, cid, pool, pipe, op_idx, cpu, ram, plans, tps):
+    def __init__(self, cid, pool, pipe, op_idx, cpu, ram, plans, tps, extra=None):
         self.cid = cid
         self.pool = pool
         self.pipe = pipe
         self.op_idx = list(op_idx)
+        # (pipeline, operator index) per position; `extra` = operators of OTHER pipelines packed behind the first one's
+        self.refs = [(pipe, i) for i in self.op_idx] + list(extra or [])
         self.cpu = cpu
         self.ram = F(ram)
         self.plans = plans          # per operator: tuple of (mem, computed)
@@ -132,8 +134,8 @@ class ModelPool:
             c.sus_elapsed = 0
             c.can_suspend = False
             c.usage_at_suspend = c.usage
-            for i in c.op_idx[c.cur:]:
-                c.pipe.states[i] = "suspending"
+            for p_, i in c.refs[c.cur:]:
+                p_.states[i] = "suspending"
         # 2. assignments (already judged acceptable)
         for c in new_containers:
             self.free_cpu -= c.cpu
@@ -157,17 +159,17 @@ class ModelPool:
                 c.where = "suspended"
                 self.free_cpu += c.cpu
                 self.free_ram += c.ram
-                for i in c.op_idx[c.cur:]:
-                    c.pipe.states[i] = "pending"
+                for p_, i in c.refs[c.cur:]:
+                    p_.states[i] = "pending"
         # 4. active containers execute one tick
         results = {}
         indiv = set()
         for c in self.active:
             c.ticks += 1
             c.can_suspend = False
-            i = c.op_idx[c.cur]
+            p_cur, i = c.refs[c.cur]
             if c.k == 0:
-                c.pipe.states[i] = "running"
+                p_cur.states[i] = "running"
             mem, computed = c.plans[c.cur][c.k]
             if computed or not _dyadic(mem):
                 self.exact = False      # enters the implementation's running float total even if the container is killed at once
@@ -177,18 +179,18 @@ class ModelPool:
                 c.ambiguous_limit = True
             if over:
                 c.usage = F(0)
-                for j in c.op_idx[c.cur:]:
-                    c.pipe.states[j] = "failed"
+                for p_, j in c.refs[c.cur:]:
+                    p_.states[j] = "failed"
                 c.result = "oom"
                 results[c.cid] = "oom"
                 indiv.add(c.cid)
                 continue
             c.usage = mem
             if c.k == len(c.plans[c.cur]) - 1:
-                c.pipe.states[i] = "completed"
+                p_cur.states[i] = "completed"
                 c.cur += 1
                 c.k = 0
-                if c.cur == len(c.op_idx):
+                if c.cur == len(c.refs):
                     c.result = "ok"
                     c.usage = F(0)
                     results[c.cid] = "ok"
@@ -242,8 +244,8 @@ class ModelPool:
                 problems.append(("C11:insufficient", f"pool {self.pool_id}: usage after kills {float(remaining)} still above capacity {float(self.cap_ram)}"))
             for v in victims:
                 v.usage = F(0)
-                for j in v.op_idx[v.cur:]:
-                    v.pipe.states[j] = "failed"
+                for p_, j in v.refs[v.cur:]:
+                    p_.states[j] = "failed"
                 v.result = "oom"
                 v.can_suspend = False
                 results[v.cid] = "oom"
